@@ -42,6 +42,8 @@ var srcDir = func() string {
 
 type propSpec struct {
 	Engine     string   // world | sched
+	Also       string   // a second engine that contributes runs to the same property ("" = none)
+	AlsoRuns   int      // quick-tier runs of the second engine
 	Cover      []string // oracle-cell prefixes that count as this property's non-trivial cases
 	QuickRuns  int
 	QuickSecs  int
@@ -131,17 +133,20 @@ type agg struct {
 }
 
 type violGroup struct {
-	V     world.Violation
-	Count int
-	Index int // first failing run index
-	Seed  uint64
+	V      world.Violation
+	Count  int
+	Index  int // first failing run index
+	Seed   uint64
+	Engine string
 }
 
 func newAgg() *agg {
 	return &agg{cover: map[string]int{}, probes: map[string]int{}, faults: map[string]int{}, gens: map[string]int{}, hashes: map[string]bool{}, viol: map[string]*violGroup{}, otherProps: map[string]int{}}
 }
 
-func (a *agg) add(property string, r *lineResult) {
+func (a *agg) add(property string, r *lineResult) { a.addFrom(property, r, "") }
+
+func (a *agg) addFrom(property string, r *lineResult, engine string) {
 	a.mu.Lock()
 	defer a.mu.Unlock()
 	a.runs++
@@ -176,7 +181,7 @@ func (a *agg) add(property string, r *lineResult) {
 		k := v.SigString()
 		g := a.viol[k]
 		if g == nil {
-			g = &violGroup{V: v, Index: r.Index, Seed: r.Seed}
+			g = &violGroup{V: v, Index: r.Index, Seed: r.Seed, Engine: engine}
 			a.viol[k] = g
 		}
 		g.Count++
@@ -187,7 +192,11 @@ func (a *agg) add(property string, r *lineResult) {
 }
 
 // runWorkers fans the seed range out and aggregates.
-func runWorkers(bin, property string, master uint64, workers, maxRuns int, deadline time.Time, tmp string, a *agg) error {
+func runWorkers(bin, property string, master uint64, workers, maxRuns int, deadline time.Time, tmp string, a *agg, engine ...string) error {
+	eng := ""
+	if len(engine) > 0 {
+		eng = engine[0]
+	}
 	var wg sync.WaitGroup
 	errs := make([]error, workers)
 	per := (maxRuns + workers - 1) / workers
@@ -195,8 +204,8 @@ func runWorkers(bin, property string, master uint64, workers, maxRuns int, deadl
 		wg.Add(1)
 		go func(w int) {
 			defer wg.Done()
-			out := filepath.Join(tmp, fmt.Sprintf("out-%d.jsonl", w))
-			prog := filepath.Join(tmp, fmt.Sprintf("prog-%d", w))
+			out := filepath.Join(tmp, fmt.Sprintf("out-%s-%d.jsonl", eng, w))
+			prog := filepath.Join(tmp, fmt.Sprintf("prog-%s-%d", eng, w))
 			spec := map[string]interface{}{"property": property, "master": master, "from": w, "stride": workers, "max": per, "deadline": deadline.Unix(), "out": out, "progress": prog}
 			errs[w] = runWorkerProc(bin, spec, prog, deadline.Add(60*time.Second))
 			f, err := os.Open(out)
@@ -212,7 +221,7 @@ func runWorkers(bin, property string, master uint64, workers, maxRuns int, deadl
 			for sc.Scan() {
 				var r lineResult
 				if json.Unmarshal(sc.Bytes(), &r) == nil {
-					a.add(property, &r)
+					a.addFrom(property, &r, eng)
 				}
 			}
 		}(w)
@@ -458,6 +467,24 @@ func cmdCheck(id, tier string) int {
 		writeEvidence(id, tier, master, a, spec, time.Since(start).Seconds(), buildS, time.Since(runStart).Seconds(), nil, nil, 0)
 		die(exitUnwell, "worker trouble (not a violation)")
 	}
+	var alsoBin string
+	var alsoOps planOps
+	if spec.Also != "" {
+		alsoBin, err = build(spec.Also, tmp)
+		if err != nil {
+			fmt.Println(err)
+			die(exitUnwell, "cannot build the %s engine from the current /repo tree", spec.Also)
+		}
+		alsoOps = schedOps(alsoBin, id, master, tmp)
+		n, b := spec.AlsoRuns, 30*time.Second
+		if tier == "thorough" {
+			n, b = 1<<30, budget/4
+		}
+		if err := runWorkers(alsoBin, id, master, workers, n, time.Now().Add(b), tmp, a, spec.Also); err != nil {
+			fmt.Println(err)
+			die(exitUnwell, "worker trouble in the %s engine (not a violation)", spec.Also)
+		}
+	}
 	runS := time.Since(runStart).Seconds()
 	if len(a.harnessErr) > 0 {
 		for _, e := range a.harnessErr[:min(3, len(a.harnessErr))] {
@@ -509,7 +536,11 @@ func cmdCheck(id, tier string) int {
 			}
 			break
 		}
-		path, status := reportViolation(bin, id, spec.Engine, master, g, tmp, ops)
+		vbin, vengine, vops := bin, spec.Engine, ops
+		if g.Engine != "" && g.Engine == spec.Also {
+			vbin, vengine, vops = alsoBin, spec.Also, alsoOps
+		}
+		path, status := reportViolation(vbin, id, vengine, master, g, tmp, vops)
 		switch status {
 		case "violation":
 			fmt.Printf("VIOLATION property=%s replay=%s\n", id, path)
